@@ -68,7 +68,7 @@ def crash_run(tmp, pname, vname, syscall, when, tag):
   return db, acks, victim, r.returncode
 
 
-def run_one(ctx, tmp, pname, vname, only=None):
+def run_one(ctx, tmp, pname, vname, only=None, sample=None):
   from vv.checks import c05
   counts, err = dry_run(tmp, pname, vname)
   if err:
@@ -81,10 +81,14 @@ def run_one(ctx, tmp, pname, vname, only=None):
   for s in SYSCALLS:
     n0, n1 = counts[s]
     ctx.count(f'syscalls_inside_victim:{s}', n1)
-    for j in range(1, n1 + 1):
+    js = list(range(1, n1 + 1))
+    if sample is not None and only is None:
+      # a thin slice: database-page writes only, early / middle / last
+      js = sorted({min(2, n1), n1 // 2 + 1, n1}) if (s == 'pwrite64' and n1) else []
+    for j in js:
       if only is not None and (s, j) != only:
         continue
-      if ctx.out_of_time():
+      if ctx.out_of_time() and sample is None:
         return
       db, acks, vic, rc = crash_run(tmp, pname, vname, s, n0 + j, f'{s}{j}')
       case = {'strace': True, 'prefix': pname, 'victim': vname, 'syscall': s, 'j': j, 'k': f'{s}#{j}', 'B': n1}
@@ -105,7 +109,13 @@ def run_one(ctx, tmp, pname, vname, only=None):
           pass
 
 
-def run(ctx, tmp):
+def run(ctx, tmp, sample=None):
+  if sample is not None:
+    # quick tier: one item per shard, rotated by the seed
+    i = (ctx.shard + ctx.seed) % len(ITEMS)
+    if ctx.shard < len(ITEMS):
+      run_one(ctx, tmp, ITEMS[i][0], ITEMS[i][1], sample=sample)
+    return
   for i, (pname, vname) in enumerate(ITEMS):
     if i % ctx.nshards != ctx.shard:
       continue
